@@ -114,3 +114,9 @@ let () =
           else if from_empty && has_empty_slice then "meta-inv:empty-range" else "meta-inv:other" in
         { model; spec; cls }
       end)
+
+(* mixdt <op> <dtA> <dtB> <form> (C06/C11): operands of different element types.  SPEC only: the
+   property demands a refusal ("mismatched shapes or element types are refused with an error") *)
+let () =
+  register2 "mixdt" (fun a impl ->
+      { model = "-"; spec = "err"; cls = if impl = "err" then "" else Printf.sprintf "mixdt.%s:%s:%s" a.(0) a.(3) (if impl = "panic" then "panic" else "accepted") })
